@@ -22,7 +22,7 @@ def run(rep, work, tier, seed, only=None):
                         'certificate search (gf2.find_certificate) is untrusted: only check_cert decides']
     rep.trusted += ['dump driver drivers/dump_codes.py + literal printer harness/codegen.py (Python)',
                     'Layer-I: the table checked is the one the implementation built on this run']
-    outdir, idx = cc.run_dump(work, tier, only)
+    outdir, idx = cc.run_dump(work, tier, only, extra='c01')
     recs = []
     skipped = 0
     for it in idx:
